@@ -88,7 +88,10 @@ func (m *MTProto) makeAuthKey() error { // nolint don't know how to make method 
 	}
 
 	// check of hash, trandom bytes trail removing occurs in this func already
-	decodedMessage := ige.DecryptMessageWithTempKeys(dhParams.EncryptedAnswer, nonceSecond.Int, nonceServer.Int)
+	decodedMessage, err := ige.TryDecryptMessageWithTempKeys(dhParams.EncryptedAnswer, nonceSecond.Int, nonceServer.Int)
+	if err != nil {
+		return errors.Wrap(err, "decrypting response from server")
+	}
 	data, err := tl.DecodeUnknownObject(decodedMessage)
 	if err != nil {
 		return errors.Wrap(err, "decoding response from server")
